@@ -29,8 +29,8 @@ def base_history(base_seed: int, index: int, tier: str, avoid, nt):
         op = gen_op(ops_rng, frng, cfg, w, opid)
         op.pop("fault", None)
         if avoiding:
-            trig = make_plan(w, op).trigger
-            if any(rx.search(trig) for rx in avoid):
+            pl = make_plan(w, op)
+            if pl.contract == "OK" and any(rx.search(pl.trigger) for rx in avoid):
                 continue
         ops.append(op)
         r = run_step(w, op, probes=probes)
